@@ -268,9 +268,18 @@ static void run_case(void *ctx, mx_result_t *r)
         char cd[96];
         cfg_desc(c, cd, sizeof(cd));
         r->violation = 1;
-        snprintf(r->key, sizeof(r->key), "leak-after-delete|%s|%s|%s", ver_name(c->ver), v ? "server" : "client", ename[e->kind]);
-        snprintf(r->what, sizeof(r->what), "%s: %ld tracked allocations still live after both sessions and key sets were deleted (edit %s off %d val %d fed to %s) [%s]",
-            cd, live, ename[e->kind], e->off, e->val, v ? "server" : "client", r->desc);
+        {
+            void *sites[2];
+            char site[128] = "?";
+            if (env_live_sites(sites, 2) > 0)
+            {
+                mx_addr_func(sites[0], site, sizeof(site));
+            }
+            env_live_dump();
+            snprintf(r->key, sizeof(r->key), "leak-after-delete|%s|%s|alloc-in=%s", ver_name(c->ver), v ? "server" : "client", site);
+            snprintf(r->what, sizeof(r->what), "%s: %ld tracked allocations still live after both sessions and key sets were deleted, first allocated in %s (edit %s off %d val %d fed to %s) [%s]",
+                cd, live, site, ename[e->kind], e->off, e->val, v ? "server" : "client", r->desc);
+        }
     }
 }
 
